@@ -66,7 +66,7 @@ theorem div_step (T bs0 b : Int) (h0 : 0 < bs0) (h1 : (b + 1) * bs0 < T) :
 /-! ### the loop invariant -/
 
 /-- `R` = the matching rows the loop has not delivered yet; `bs0` = the (clamped) batch size the loop started with -/
-structure Inv (M : List Nat) (userOff : Option Int) (T bs0 : Int) (st : BatchSt) (R : List Nat) : Prop where
+structure BatchInv (M : List Nat) (userOff : Option Int) (T bs0 : Int) (st : BatchSt) (R : List Nat) : Prop where
   hbs : 0 < st.batchSize
   hle : st.batchSize ≤ bs0
   hq : ∀ l : Int, findQ M (some l) (if st.first then userOff else none) st.cursor = R.take l.toNat
@@ -83,11 +83,11 @@ theorem take_budget_of_short (R : List Nat) (n : Nat) (h : R.length ≤ n) : R.t
   List.take_of_length_le h
 
 theorem batchStep_spec (M : List Nat) (userOff : Option Int) (T bs0 : Int) (st : BatchSt) (R : List Nat)
-    (hs : M.Pairwise (· < ·)) (hp : ∀ k ∈ M, 0 < k) (inv : Inv M userOff T bs0 st R) :
+    (hs : M.Pairwise (· < ·)) (hp : ∀ k ∈ M, 0 < k) (inv : BatchInv M userOff T bs0 st R) :
     let s := batchStep (fun l o g => findQ M (some l) o g) userOff T st
     s.res = R.take st.batchSize.toNat ∧ s.rowsAffected = st.rowsAffected + s.res.length ∧ s.pkRequired = false
     ∧ ((s.next = none ∧ s.res = R.take (budget T st R)) ∨
-       (∃ st', s.next = some st' ∧ Inv M userOff T bs0 st' (R.drop st.batchSize.toNat)
+       (∃ st', s.next = some st' ∧ BatchInv M userOff T bs0 st' (R.drop st.batchSize.toNat)
           ∧ s.res.length = st.batchSize.toNat ∧ st'.rowsAffected = s.rowsAffected
           ∧ R.take (budget T st R)
               = s.res ++ (R.drop st.batchSize.toNat).take (budget T st' (R.drop st.batchSize.toNat)))) := by
@@ -215,7 +215,7 @@ theorem batchLoopQ_next (q : Int → Option Int → Option Nat → List Nat) (uo
 theorem batchLoop_spec (M : List Nat) (userOff : Option Int) (T bs0 : Int)
     (hs : M.Pairwise (· < ·)) (hp : ∀ k ∈ M, 0 < k) :
     ∀ (fuel : Nat) (st : BatchSt) (R : List Nat) (acc : List (List Nat)) (qs : List BatchQuery),
-      Inv M userOff T bs0 st R → R.length + 1 ≤ fuel →
+      BatchInv M userOff T bs0 st R → R.length + 1 ≤ fuel →
       ∃ bl, (batchLoopQ (fun l o g => findQ M (some l) o g) userOff T fuel st acc qs).batches = acc.reverse ++ bl
         ∧ bl.flatten = R.take (budget T st R)
         ∧ (∀ b ∈ bl, b ≠ [] ∧ (b.length : Int) ≤ bs0)
@@ -335,7 +335,7 @@ theorem findInBatches_spec (M : List Nat) (lim : Option Limit) (batch : Int) (fu
     ∧ (findInBatches M lim batch fuel).outOfFuel = false
     ∧ (findInBatches M lim batch fuel).pkRequired = false
     ∧ (findInBatches M lim batch fuel).rowsAffected = ((findAll M lim).length : Int) := by
-  have inv : Inv M (effOffsetOf lim) (totalSizeOf lim) (clampBatch lim batch)
+  have inv : BatchInv M (effOffsetOf lim) (totalSizeOf lim) (clampBatch lim batch)
       { batchSize := clampBatch lim batch } (afterOffset M lim) := by
     refine ⟨clampBatch_pos _ _ hb, Int.le_refl _, ?_, ?_, ?_⟩
     · intro l
@@ -389,14 +389,14 @@ theorem findAll_sublist (M : List Nat) (lim : Option Limit) : (findAll M lim).Su
 
 /-! ### WHERE runs, ordering: when `queryW` degenerates to `findQ` on the matching rows -/
 
-theorem evalRunsAux_noOr (k : Nat) (us : List WUnit) (c : WUnit) (hc : c.isOr = false)
+theorem evalUnitsAux_noOr (k : Nat) (us : List WUnit) (c : WUnit) (hc : c.isOr = false)
     (h : ∀ u ∈ us, u.isOr = false) (cur : Bool) :
-    evalRunsAux k cur (us ++ [c]) = (evalRunsAux k cur us && c.sat k) := by
+    evalUnitsAux k cur (us ++ [c]) = (evalUnitsAux k cur us && c.sat k) := by
   induction us generalizing cur with
-  | nil => simp [evalRunsAux, hc]
+  | nil => simp [evalUnitsAux, hc]
   | cons u us ih =>
     have hu : u.isOr = false := h u (by simp)
-    simp only [List.cons_append, evalRunsAux, hu]
+    simp only [List.cons_append, evalUnitsAux, hu]
     exact ih (fun v hv => h v (by simp [hv])) _
 
 theorem whereSwap_noOr (us : List WUnit) (h : ∀ u ∈ us, u.isOr = false) : whereSwap us = us := by
@@ -415,10 +415,10 @@ theorem whereSat_cursor_noOr (us : List WUnit) (h : ∀ u ∈ us, u.isOr = false
     · simp at hu; subst hu; rfl
   rw [whereSwap_noOr _ h', whereSwap_noOr _ h]
   cases us with
-  | nil => simp [evalRuns, evalRunsAux, cursorUnit]
+  | nil => simp [evalUnits, evalUnitsAux, cursorUnit]
   | cons u us =>
-    simp only [List.cons_append, evalRuns]
-    rw [evalRunsAux_noOr k us (cursorUnit g) rfl (fun v hv => h v (by simp [hv]))]
+    simp only [List.cons_append, evalUnits]
+    rw [evalUnitsAux_noOr k us (cursorUnit g) rfl (fun v hv => h v (by simp [hv]))]
     rfl
 
 theorem insertBy_head (le : Nat → Nat → Bool) (x : Nat) (l : List Nat)
